@@ -94,6 +94,26 @@ def first_of_each_class(fails, limit=6):
     return out[:limit]
 
 
+def guarded(ctx, stream, fn, detail):
+    """run one case; an unexpected exception inside the adapters / readers is
+    reported as a violation carrying the input, never as exit 2"""
+    from ctmverif import core
+    try:
+        fn(ctx, detail)
+    except core.InfraError:
+        raise
+    except Exception as e:
+        import traceback
+        ctx.violation(
+            'C15/%s/harness-exception/%s' % (stream, type(e).__name__),
+            'unexpected %s while checking a %s case: %s'
+            % (type(e).__name__, stream, str(e)[:300]),
+            dict(detail, broken='harness adapters / readers for the %s '
+                 'stream' % stream,
+                 traceback=traceback.format_exc()[-1500:]),
+            found_input=False)
+
+
 def corr_violation(ctx, sig, what, detail, fn):
     ctx.disagreements_checked += 1
     d = dict(detail)
@@ -153,10 +173,22 @@ def compare_h5_model(ctx, blob, h5_real, back_real, impl_err, detail, label,
             'model toH5 fails (%s) where blob_to_hdf5 succeeds' % mh['err'],
             detail, 'CTM.Output.toH5 ~ _blob_to_hdf5_results')
         return
-    raw = ou.read_h5_raw(h5_real, st)['h5']
+    rawf = ou.read_h5_raw(h5_real, st)
+    raw = rawf['h5']
+    if rawf['problems'] or raw is None:
+        name, what = (rawf['problems'] or [('assignment', 'missing')])[0]
+        corr_violation(
+            ctx, 'C15/correspondence/h5/dataset-layout/' + name,
+            'HDF5 file written by blob_to_hdf5: dataset %r %s (all: %r)'
+            % (name, what, rawf['problems']),
+            dict(detail, problems=rawf['problems'], datasets=rawf['keys']),
+            'CTM.Output.toH5 ~ _blob_to_hdf5_results (datasets of the file)')
+        raw = None
     m = mh['ok']
     for k in ('directlyAssigned', 'intToNode', 'cellId', 'assignment',
               'prob', 'agg', 'corr', 'runners'):
+        if raw is None:
+            break
         if raw[k] != m[k]:
             corr_violation(
                 ctx, 'C15/correspondence/h5/dataset/' + k,
@@ -333,7 +365,7 @@ def compare_csv_model(ctx, tree, results, iters, comments, header, rows,
 # (ii) direct blob_to_hdf5 -> hdf5_to_blob, blob_to_csv
 # ---------------------------------------------------------------------------
 
-def check_direct(ctx, detail):
+def _check_direct(ctx, detail):
     from cell_type_mapper.utils.output_utils import (
         blob_to_hdf5, hdf5_to_blob, blob_to_csv)
     from cell_type_mapper.taxonomy.taxonomy_tree import TaxonomyTree
@@ -435,7 +467,7 @@ def check_direct(ctx, detail):
                               detail, impl_err, pred_failed)
 
 
-def check_metadata_only(ctx, detail):
+def _check_metadata_only(ctx, detail):
     """a failed run: blob_to_hdf5 writes the metadata only and hdf5_to_blob
     returns it (not modelled; implementation predicate only)"""
     from cell_type_mapper.utils.output_utils import blob_to_hdf5, hdf5_to_blob
@@ -464,7 +496,7 @@ def check_metadata_only(ctx, detail):
 # fmt4
 # ---------------------------------------------------------------------------
 
-def check_fmt4(ctx, xs, detail_kind='fmt4'):
+def _check_fmt4(ctx, xs, detail_kind='fmt4'):
     """'%.4f' (what pandas applies) vs exact round-half-even vs the model"""
     import pandas as pd
     import io
@@ -519,7 +551,7 @@ def gen_fmt4_inputs(rng, n):
 # clean_for_json
 # ---------------------------------------------------------------------------
 
-def check_clean(ctx, value, detail=None):
+def _check_clean(ctx, value, detail=None):
     from cell_type_mapper.utils.utils import clean_for_json
     ctx.count('clean_for_json')
     st = ou.StrTable()
@@ -567,7 +599,7 @@ def check_clean(ctx, value, detail=None):
 # re_order_blob
 # ---------------------------------------------------------------------------
 
-def check_reorder(ctx, detail):
+def _check_reorder(ctx, detail):
     from cell_type_mapper.utils.output_utils import re_order_blob
     ids = detail['ids']          # cell ids of the records, in result order
     order = detail['order']      # obs index of the query file
@@ -679,7 +711,7 @@ def gen_pipeline_spec(rng, tainted=False, single_leaf=False, quick=True,
     return spec
 
 
-def check_pipeline(ctx, spec):
+def _check_pipeline(ctx, spec):
     from cell_type_mapper.utils.output_utils import hdf5_to_blob
     tree = spec['tree']
     h = tree['hierarchy']
@@ -877,6 +909,41 @@ def check_pipeline(ctx, spec):
 
 
 # ---------------------------------------------------------------------------
+
+# every case goes through `guarded`: an exception in an adapter or reader is a
+# reported violation with the input, never an infrastructure failure
+
+def check_direct(ctx, detail):
+    guarded(ctx, 'direct', _check_direct, detail)
+
+
+def check_metadata_only(ctx, detail):
+    guarded(ctx, 'metadata-only', _check_metadata_only, detail)
+
+
+def check_reorder(ctx, detail):
+    guarded(ctx, 'reorder', _check_reorder, detail)
+
+
+def check_pipeline(ctx, spec):
+    guarded(ctx, 'pipeline', _check_pipeline, spec)
+
+
+def check_fmt4(ctx, xs):
+    guarded(ctx, 'fmt4', lambda c, d: _check_fmt4(c, d['xs']),
+            {'kind': 'fmt4', 'xs': list(xs)})
+
+
+def check_clean(ctx, value):
+    st = ou.StrTable()
+    try:
+        tagged = ou.pyval_json(value, st)
+    except Exception:
+        tagged = None
+    guarded(ctx, 'clean_for_json', lambda c, d: _check_clean(c, value),
+            {'kind': 'clean', 'value_repr': repr(value)[:2000],
+             'value_tagged': tagged, 'strings': st.strs})
+
 
 def ctx_corpus(prop):
     from ctmverif import core
